@@ -95,7 +95,8 @@ def _affine_first(self, x, y):
     x, y = _arr(x), _arr(y)
     i, j = int(np.argmin(x)), int(np.argmax(x))
     slope = (y[j] - y[i]) / (x[j] - x[i])
-    self.__dict__["_fmon_c14_first"] = (slope, y[i] - slope * x[i], float(np.ptp(x)))
+    # kept as y = slope * (x - x0) + y0 (well conditioned even when the offset dwarfs the spread)
+    self.__dict__["_fmon_c14_first"] = (slope, float(x[i]), float(y[i]))
 
 
 def _affine_later(self, x, y, mm, what):
@@ -103,13 +104,14 @@ def _affine_later(self, x, y, mm, what):
     st = self.__dict__.get("_fmon_c14_first")
     if st is None or st is True or x.ndim != 1 or not np.all(np.isfinite(x)):
         return
-    slope, offset, scale = st
+    slope, x0, y0 = st
     mm.ev("same-affine-map")
-    want = slope * x + offset
-    tol = 1e-9 * max(1.0, float(np.max(np.abs(want))) if want.size else 1.0)
+    want = slope * (x - x0) + y0
+    # round-off of the library's own (x - mean) / sd is about eps * |x| * slope
+    tol = 1e-9 * max(1.0, float(np.max(np.abs(want))) if want.size else 1.0) + 1e-13 * abs(slope) * (float(np.max(np.abs(x))) if x.size else 0.0)
     if y.shape != want.shape or not np.allclose(y, want, rtol=1e-9, atol=tol):
         _viol("same-affine-map", f"{what}: a later call is not the affine map of the first call "
-              f"(slope {slope:.6g}, offset {offset:.6g}); first difference {float(np.max(np.abs(y - want))):.3g}", "affine:" + what)
+              f"(slope {slope:.6g} through ({x0:.6g}, {y0:.6g})); first difference {float(np.max(np.abs(y - want))):.3g}", "affine:" + what)
 
 
 def check_center(self, first, a, k, r, mm):
@@ -136,7 +138,8 @@ def check_scale(self, first, a, k, r, mm):
         mm.ev("scale-standardised")
         y = _arr(r)
         sc = max(1.0, float(np.max(np.abs(_arr(x)))) / float(np.std(_arr(x))))
-        if abs(float(np.mean(y))) > 1e-9 * sc or abs(float(np.std(y)) - 1.0) > 1e-9:
+        # a two-pass sd is accurate to about eps * |mean| / sd; a one-pass formula loses eps * (|mean| / sd)**2
+        if abs(float(np.mean(y))) > 1e-9 * sc or not abs(float(np.std(y)) - 1.0) <= max(1e-9, 1e-11 * sc):
             _viol("scale-standardised", f"scale(x) on its training data has mean {float(np.mean(y)):.3g} and population sd {float(np.std(y)):.12g}")
         _affine_first(self, x, r)
     else:
@@ -156,7 +159,18 @@ def check_bs(self, first, a, k, r, mm):
         hi = args.get("upper_bound")
         lo = float(np.min(x)) if lo is None else lo
         hi = float(np.max(x)) if hi is None else hi
-        self.__dict__["_fmon_c14_first"] = (lo, hi, bool(intercept))
+        # the interior knots this call asks for (explicit, or equally spaced quantiles of the data):
+        # coinciding ones (heavy ties) give basis functions with empty support - outside the statement
+        try:
+            if knots is not None:
+                inner = np.sort(np.asarray(knots, dtype=float).ravel())
+            else:
+                n_inner = df - (degree + 1) + (0 if intercept else 1)
+                inner = np.percentile(x, 100 * np.linspace(0, 1, n_inner + 2)[1:-1]) if n_inner > 0 else np.array([])
+            degenerate = bool(np.any(np.diff(inner) == 0) or np.any(inner <= lo) or np.any(inner >= hi))
+        except Exception:
+            degenerate = False
+        self.__dict__["_fmon_c14_first"] = (lo, hi, bool(intercept), degenerate)
         mm.ev("bs-columns")
         want = df if df is not None else len(np.atleast_1d(knots)) + degree + (1 if intercept else 0)
         if B.ndim != 2 or B.shape[1] != want or B.shape[0] != x.shape[0]:
@@ -166,17 +180,10 @@ def check_bs(self, first, a, k, r, mm):
     st = self.__dict__.get("_fmon_c14_first")
     if not isinstance(st, tuple) or B.ndim != 2:
         return
-    lo, hi, intercept = st
-    kn = getattr(self, "_knots", None)
-    if kn is not None:
-        # coinciding knots (heavy ties in the data: several percentiles fall on one value, or on a boundary)
-        # give basis functions with empty support; the statement is about proper knot sequences
-        interior = np.sort(np.asarray(kn, dtype=float))
-        interior = interior[(interior > lo) & (interior < hi)]
-        n_interior = len(kn) - 2 * (getattr(self, "_degree", 3) + 1)
-        if len(interior) != n_interior or np.any(np.diff(interior) == 0):
-            mm.note("bs-degenerate-knots-not-judged")
-            return
+    lo, hi, intercept, degenerate = st
+    if degenerate:
+        mm.note("bs-degenerate-knots-not-judged")
+        return
     inside = (x >= lo) & (x <= hi) & np.isfinite(x)
     if not inside.any():
         return
@@ -208,6 +215,9 @@ def check_poly(self, first, a, k, r, mm):
         return
     V = np.column_stack([x ** j for j in range(1, d + 1)])
     if raw:
+        # "exactly those powers": the same numpy operation on the input as given (dtype included)
+        xin = np.asarray(args["x"])
+        V = np.column_stack([np.power(xin, j) for j in range(1, d + 1)])
         mm.ev("poly-raw-powers")
         if not np.array_equal(P, V):
             _viol("poly-raw-powers", "poly(raw=True) is not exactly x, x^2, ...")
@@ -252,10 +262,16 @@ def vector(rng, kind, n):
         return rng.integers(-20, 20, size=n)
     if kind == "uniform":
         return rng.uniform(0, 1, size=n)
+    if kind == "huge-offset":
+        return 1e6 * float(rng.choice([1, 10, 100])) + rng.uniform(-1, 1, size=n)
+    if kind == "big-int":
+        return rng.integers(3_000_000_000, 3_000_000_050, size=n)
+    if kind == "wide":
+        return rng.uniform(0.5, 9.7, size=n)
     raise ValueError(kind)
 
 
-KINDS = ["normal", "offset", "heavy", "ties", "zero-mean", "int", "uniform"]
+KINDS = ["normal", "offset", "heavy", "ties", "zero-mean", "int", "uniform", "huge-offset", "big-int", "wide"]
 
 
 def later_inputs(rng, x):
@@ -277,6 +293,13 @@ def judge(case, m):
     if "knots_q" in p:
         q = p.pop("knots_q")
         kn = np.quantile(x, q)
+        if p.pop("knots_int", False):
+            # integer knots strictly inside a non-integer data range
+            ints = sorted({int(v) for v in np.round(kn)} & set(range(int(np.ceil(x.min() + 1e-9)), int(np.floor(x.max() - 1e-9)) + 1)))
+            if not ints:
+                m.note("no-integer-knot-inside-the-range")
+                return
+            kn = np.array(ints, dtype=int)
         if p.pop("unsorted", False):
             kn = kn[::-1]
         p["knots"] = kn.tolist() if p.pop("as_list", True) else kn
@@ -361,6 +384,7 @@ def gen_params(rng, t):
             p["knots_q"] = sorted(rng.uniform(0.1, 0.9) for _ in range(nk))
             p["unsorted"] = mode == "knots-unsorted"
             p["as_list"] = rng.random() < 0.5
+            p["knots_int"] = rng.random() < 0.3
         return p
     if t == "poly":
         return {"degree": rng.choice([1, 2, 3, 4, 5, 6]), "raw": rng.random() < 0.3}
